@@ -11,6 +11,7 @@ mod avg;
 mod arc;
 mod logq;
 mod multi;
+mod resring;
 
 use std::io::{BufRead, Write};
 
@@ -38,6 +39,7 @@ fn main() {
             "arc" => arc::run(&case),
             "log" => logq::run(&case),
             "multi" => multi::run(&case),
+            "resring" => resring::run(&case),
             other  => panic!("unknown case kind '{other}'"),
         };
         let text: Vec<String> = trace.iter().map(|v| v.to_string()).collect();
